@@ -127,8 +127,8 @@ def gen_element(rng, big=False):
         # 0xab as the *length byte* of a PUSHDATA1 (171 payload bytes) is data, not an operation
         return push(data_with_ab(rng, rng.choice((0, 1, 0x4b, 0x4c, 0xab, 0xff, rng.randrange(0, 256)))), 'pd1')
     if k < 0.93:
-        return push(data_with_ab(rng, rng.choice((0, 1, 0xab, 0xff, 0x100, 300) + ((0xab00, 0xffff) if big else ()))),
-                    'pd2')
+        return push(data_with_ab(rng, rng.choice((0, 1, 0xab, 0xff, 0x100, 300) +
+                                                   ((0xab00, 0xffff) if big and rng.random() < 0.03 else ()))), 'pd2')
     return push(data_with_ab(rng, rng.choice((0, 1, 0xab, 0x100))), 'pd4')
 
 
@@ -253,7 +253,7 @@ class C03(Prop):
     id = 'C03'
     title = 'Legacy signature hash equals the consensus algorithm for every hash type'
     lean_targets = ['BtcVerif.Props.C03']
-    table_groups = []
+    table_groups = ['Sighash']
     theorems = ['BtcVerif.C03.' + t for t in (
         'parses_iff', 'findAndDelete_codesep', 'findAndDelete_ops', 'findAndDelete_invalid', 'raw_eq_spec',
         'raw_eq_spec_int32', 'raw_eq_spec_wf', 'err_iff', 'raw_no_pyexc', 'isWitnessScriptPubKey_spec',
@@ -291,7 +291,7 @@ class C03(Prop):
     def combos(self, rng, tier, shard, nshards):
         """(tx, [scripts]) pairs of this shard"""
         big = tier == 'thorough'
-        ntx = (640 if big else 48)
+        ntx = (1280 if big else 48)
         per = max(1, ntx // nshards)
         # fixed shapes first (partitioned), then random ones
         shapes = [(1, 0), (1, 1), (2, 1), (2, 2), (3, 2), (2, 3), (4, 4), (4, 0), (3, 1), (1, 4), (0, 1), (4, 3)]
